@@ -570,71 +570,8 @@ func runC14(c *Ctx) {
 		if nOrder == 0 {
 			R.Fatal("no caller of %s found", shortFn(fn))
 		}
-		// creation by packet 1 with its header
-		addFn := c.P.Method("service", "packageParse", "add")
-		cp := c.P.Method("service", "packageParse", "completePack")
-		if addFn == nil || cp == nil {
-			R.Fatal("anchors packageParse.add / completePack not found")
-		} else {
-			ok, d := false, "completePack never creates a record"
-			for _, b := range cp.Blocks {
-				for _, ins := range b.Instrs {
-					call, isC := ins.(*ssa.Call)
-					if !isC || call.Call.StaticCallee() != addFn {
-						continue
-					}
-					ok, d = false, "the record is not created exactly by the packet numbered 1"
-					for _, b2 := range cp.Blocks {
-						iff, isIf := b2.Instrs[len(b2.Instrs)-1].(*ssa.If)
-						if !isIf {
-							continue
-						}
-						cmp, isCmp := iff.Cond.(*ssa.BinOp)
-						if !isCmp || cmp.Op != token.EQL {
-							continue
-						}
-						one, isOne := constInt(cmp.Y)
-						if !isOne || one != 1 {
-							continue
-						}
-						v := cmp.X
-						if cv, isCv := v.(*ssa.Convert); isCv {
-							v = cv.X
-						}
-						_, path := loadPath(v)
-						if len(path) > 0 && path[len(path)-1] == "SubPackageNo" && b2.Succs[0].Dominates(b) {
-							ok, d = true, ""
-							// … by every packet numbered 1: no path from the test's true side to the code behind it avoids the creation
-							seen := map[*ssa.BasicBlock]bool{b: true}
-							work := []*ssa.BasicBlock{b2.Succs[0]}
-							for len(work) > 0 {
-								x := work[len(work)-1]
-								work = work[:len(work)-1]
-								if seen[x] {
-									continue
-								}
-								seen[x] = true
-								if x == b2.Succs[1] {
-									ok, d = false, "a packet numbered 1 can reach the slot store without a fresh record being created (when a record for the ID exists already): a restarted transfer inherits the abandoned one's creation time, first header (the serial named in the 0x8003) and slots"
-									break
-								}
-								work = append(work, x.Succs...)
-							}
-						}
-					}
-					// header argument is the message's header
-					_, hp := loadPath(call.Call.Args[2])
-					if ok && !(len(hp) > 0 && hp[len(hp)-1] == "Header") {
-						ok, d = false, "the stored first header is not the header of the packet numbered 1"
-					}
-				}
-			}
-			st := report.Discharged
-			if !ok {
-				st = report.Violated
-			}
-			R.Add("S.expiry", shortFn(cp)+" / the record (creation time, first header) is created by packet 1", c.P.RelPos(cp.Pos()), st, d)
-		}
+		// creation by packet 1 with its header (shared with C05)
+		c.recordCreationRule("S.expiry")
 	}
 	// ---- progress: every stored packet refreshes the last-progress time (the 5 s are counted from the last arrival)
 	{
@@ -783,4 +720,76 @@ func instrIndex(ins ssa.Instruction) int {
 		}
 	}
 	return -1
+}
+
+// recordCreationRule (shared by C05 and C14): the per-ID record - slot table, creation time, first header - is created
+// exactly by the packets numbered 1, by every one of them, with that packet's header.
+func (c *Ctx) recordCreationRule(rule string) {
+	R := c.R
+	{
+		addFn := c.P.Method("service", "packageParse", "add")
+		cp := c.P.Method("service", "packageParse", "completePack")
+		if addFn == nil || cp == nil {
+			R.Fatal("anchors packageParse.add / completePack not found")
+		} else {
+			ok, d := false, "completePack never creates a record"
+			for _, b := range cp.Blocks {
+				for _, ins := range b.Instrs {
+					call, isC := ins.(*ssa.Call)
+					if !isC || call.Call.StaticCallee() != addFn {
+						continue
+					}
+					ok, d = false, "the record is not created exactly by the packet numbered 1"
+					for _, b2 := range cp.Blocks {
+						iff, isIf := b2.Instrs[len(b2.Instrs)-1].(*ssa.If)
+						if !isIf {
+							continue
+						}
+						cmp, isCmp := iff.Cond.(*ssa.BinOp)
+						if !isCmp || cmp.Op != token.EQL {
+							continue
+						}
+						one, isOne := constInt(cmp.Y)
+						if !isOne || one != 1 {
+							continue
+						}
+						v := cmp.X
+						if cv, isCv := v.(*ssa.Convert); isCv {
+							v = cv.X
+						}
+						_, path := loadPath(v)
+						if len(path) > 0 && path[len(path)-1] == "SubPackageNo" && b2.Succs[0].Dominates(b) {
+							ok, d = true, ""
+							// … by every packet numbered 1: no path from the test's true side to the code behind it avoids the creation
+							seen := map[*ssa.BasicBlock]bool{b: true}
+							work := []*ssa.BasicBlock{b2.Succs[0]}
+							for len(work) > 0 {
+								x := work[len(work)-1]
+								work = work[:len(work)-1]
+								if seen[x] {
+									continue
+								}
+								seen[x] = true
+								if x == b2.Succs[1] {
+									ok, d = false, "a packet numbered 1 can reach the slot store without a fresh record being created (when a record for the ID exists already): a restarted transfer inherits the abandoned one's creation time, first header (the serial named in the 0x8003) and slots"
+									break
+								}
+								work = append(work, x.Succs...)
+							}
+						}
+					}
+					// header argument is the message's header
+					_, hp := loadPath(call.Call.Args[2])
+					if ok && !(len(hp) > 0 && hp[len(hp)-1] == "Header") {
+						ok, d = false, "the stored first header is not the header of the packet numbered 1"
+					}
+				}
+			}
+			st := report.Discharged
+			if !ok {
+				st = report.Violated
+			}
+			R.Add(rule, shortFn(cp)+" / the record (creation time, first header) is created by packet 1", c.P.RelPos(cp.Pos()), st, d)
+		}
+	}
 }
